@@ -220,7 +220,12 @@ def main():
     uf = int(rng.integers(1, 5))
     by_epoch = bool(rng.integers(0, 2))
     init = int(rng.integers(0, 4))
-    qs = [Q.quantized_bits(4, 0, 1), Q.quantized_relu(4, 1), Q.quantized_po2(4), Q.quantized_bits(8, 2, 1, use_variables=True)]
+    # the factor a quantizer holds when training begins is arbitrary (0 after a "pretrain unquantized" phase or an earlier schedule)
+    f0 = [float(rng.choice([0.0, 0.0, 0.5, 1.0])) for _ in range(4)]
+    qs = [Q.quantized_bits(4, 0, 1, qnoise_factor=f0[0]), Q.quantized_relu(4, 1, qnoise_factor=f0[1]), Q.quantized_po2(4, qnoise_factor=f0[2]),
+          Q.quantized_bits(8, 2, 1, use_variables=True, qnoise_factor=f0[3])]
+    if si % 3 == 0:
+      qs[3].build(use_variables=True)   # already variable-backed when training begins
     noknob = Q.quantized_tanh(4)
     l1, l2, l3 = Lyr(), Lyr(), Lyr()
     l1.quantizers = [qs[0], None, qs[1]] if False else [qs[0], qs[1], noknob]
@@ -250,7 +255,7 @@ def main():
       if int(cb.num_iters) != before:
         freq = init + before
         vals = []
-        for q in got:
+        for q in qs:      # every quantizer with the knob, whether or not the scheduler registered it
           v = q.qnoise_factor
           vals.append(float(v.numpy()) if hasattr(v, "numpy") else float(v))
         hist.append((freq, vals, float(cb.qnoise_factor) if cb.qnoise_factor is not None else None))
